@@ -225,9 +225,9 @@ WITNESSES = [
                               {"t": T0 + 1000, "d": 0, "calls": [{"op": "disable_interface", "kinds": [{"k": "Name", "v": "eth0"}]}]},
                               {"t": T0 + 1100, "d": 0, "calls": [{"op": "enable_interface", "kinds": [{"k": "Name", "v": "eth0"}]}]},
                               {"run_until": T0 + 5000}])),
-    ("w_unreg_probing", hist("unregister (OK) after the second probe: the registry of the interface keeps the probe - the "
-                             "third probe query still goes out at +645 ms with the records of the unregistered service, "
-                             "the names become active at +895 ms; a re-registration at +3000 ms is announced at once", V4,
+    ("w_unreg_probing", hist("unregister (OK) after the second probe: the interface registry forgets the instance name (fix "
+                             "d685fcf) - the third probe query at +645 ms is for the host name only; the re-registration at "
+                             "+3000 ms is probed three times anew (+3079, +3329, +3579) and announced twice (+3829, +4829)", V4,
                              [{"t": T0, "d": 0, "calls": [{"op": "monitor", "ch": "m"}, reg()]}, {"run_until": T0 + 400},
                               {"t": T0 + 400, "d": 0, "calls": [{"op": "unregister", "name": "inst._t._tcp.local.", "ch": "u1"}]},
                               {"run_until": T0 + 3000},
